@@ -36,6 +36,7 @@ func (n *Nodis) GetSet(key string, value []byte) []byte {
 	_ = n.exec(func(tx *Tx) error {
 		meta := tx.writeKey(key, n.newStr)
 		v = meta.value.(*str.String).GetSet(value)
+		meta.key.Expiration = 0
 		n.signalModifiedKey(key, meta)
 		n.notify(func() []patch.Op {
 			return []patch.Op{{Type: patch.OpTypeSet, Data: &patch.OpSet{Key: key, Value: value}}}
